@@ -142,6 +142,36 @@ class Evaluator:
             self._call_aliases = out
         return self._call_aliases
 
+    def fluent(self):
+        """GenerativeFunction's fluent forwarders, read off their bodies: `def m(self, p..): return genjax.g(self, p..)` and
+        `def m(self, p..): return genjax.g(k=p, ..)(self)`.  -> ({g: (m, params)} for the direct form, {g: (m, {k: p}, params)} for the decorator form).
+        `g(x, a)` / `g(k=a)(x)` and `x.m(a)` are then one operation; the method spelling is the canonical one."""
+        if getattr(self, "_fluent", None) is None:
+            direct, deco = {}, {}
+            for ci in self.prog.class_index.get("GenerativeFunction", []):
+                for m, fn in ci.methods.items():
+                    if m.startswith("_") or fn.args.kwonlyargs or fn.args.kwarg:
+                        continue
+                    body = [b for b in fn.body if not (isinstance(b, ast.Expr) and isinstance(b.value, ast.Constant)) and not isinstance(b, (ast.Import, ast.ImportFrom))]
+                    if not (len(body) == 1 and isinstance(body[0], ast.Return) and isinstance(body[0].value, ast.Call)):
+                        continue
+                    c = body[0].value
+                    params = [x.arg for x in fn.args.args[1:]]
+                    var = fn.args.vararg.arg if fn.args.vararg else None
+                    is_self = lambda n: isinstance(n, ast.Name) and n.id == "self"
+                    gname = lambda f: f.attr if isinstance(f, ast.Attribute) and isinstance(f.value, ast.Name) and f.value.id == "genjax" else None
+                    if gname(c.func) and not c.keywords and c.args and is_self(c.args[0]):
+                        rest = c.args[1:]
+                        names = [(r.id if isinstance(r, ast.Name) else ("*" + r.value.id if isinstance(r, ast.Starred) and isinstance(r.value, ast.Name) else None)) for r in rest]
+                        if names == params + (["*" + var] if var else []):
+                            direct[gname(c.func)] = (m, params, var is not None)
+                    elif isinstance(c.func, ast.Call) and gname(c.func.func) and not c.func.args and len(c.args) == 1 and is_self(c.args[0]) and not c.keywords and var is None:
+                        kw = {k.arg: k.value.id for k in c.func.keywords if k.arg and isinstance(k.value, ast.Name)}
+                        if len(kw) == len(c.func.keywords) and sorted(kw.values()) == sorted(params):
+                            deco[gname(c.func.func)] = (m, kw, params)
+            self._fluent = (direct, deco)
+        return self._fluent
+
     # ------------------------------------------------------------------ entry points
     def eval_method(self, cls_name: str, meth: str, module_suffix: str | None = None, bind: dict | None = None):
         ci, fn = self.prog.method(cls_name, meth, module_suffix)
@@ -1008,6 +1038,13 @@ class _Ctx:
 
     def call_value(self, f, args, kwargs):
         ev = self.ev
+        if kwargs and is_t(f, "attr") and f[1] != P("self") and "**" not in kwargs and f[2] not in self._GFI_SIG:
+            fl = next((h for h in ev.fluent()[1].values() if h[0] == f[2]), None)
+            if fl is not None:
+                sig = tuple(fl[2])
+                if len(args) <= len(sig) and set(kwargs) <= set(sig[len(args):]) and all(n in kwargs for n in sig[len(args):len(args) + len(kwargs)]):
+                    args = list(args) + [kwargs[n] for n in sig[len(args):len(args) + len(kwargs)]]
+                    kwargs = {}
         if kwargs and is_t(f, "attr") and self._GFI_SIG.get(f[2]) and "**" not in kwargs:
             sig = self._GFI_SIG[f[2]]
             if len(args) <= len(sig) and set(kwargs) <= set(sig[len(args):]) and all(n in kwargs for n in sig[len(args):len(args) + len(kwargs)]):
@@ -1015,6 +1052,24 @@ class _Ctx:
                 kwargs = {}
         if is_t(f, "attr") and f[2] in ev.call_aliases() and f[1] != P("self"):
             f = f[1]
+        # fluent spellings: genjax.switch(x, y) is x.switch(y); genjax.vmap(in_axes=a)(x) is x.vmap(a)
+        if is_t(f, "global") and f[1].startswith("genjax") and not kwargs and args and not is_t(args[0], "star") and args[0] != P("self"):
+            hit = ev.fluent()[0].get(f[1].split(".")[-1])
+            if hit is not None and (hit[2] or len(args) - 1 == len(hit[1])) and len(args) - 1 >= len(hit[1]):
+                return self.call_value(("attr", args[0], hit[0]), list(args[1:]), {})
+        if (is_t(f, "call") and is_t(f[1], "global") and f[1][1].startswith("genjax") and not f[2] and len(args) == 1 and not kwargs and not is_t(args[0], "star")
+                and args[0] != P("self")):
+            hit = ev.fluent()[1].get(f[1][1].split(".")[-1])
+            if hit is not None and all(k in hit[1] for k, _ in f[3]):
+                given = {hit[1][k]: v for k, v in f[3]}
+                pos = []
+                for pn in hit[2]:
+                    if pn in given:
+                        pos.append(given.pop(pn))
+                    else:
+                        break
+                if not given:
+                    return self.call_value(("attr", args[0], hit[0]), pos, {})
         # functools.partial(g, a, b)(c) is g(a, b, c)
         if is_t(f, "partial"):
             return self.call_value(f[1], list(f[2]) + list(args), {**dict(f[3]), **kwargs})
